@@ -1,0 +1,15 @@
+//go:build verif
+// +build verif
+
+package reactive
+
+// VerifHook, when set, is called at the linearisation points of the
+// invalidation graph, the rerunner and the cache (build tag verif only), while
+// the lock protecting the reported change is still held. It may block.
+var VerifHook func(point string, args ...interface{})
+
+func vh(point string, args ...interface{}) {
+	if h := VerifHook; h != nil {
+		h(point, args...)
+	}
+}
